@@ -154,3 +154,25 @@ Proof. exact reachable_peers_lemma. Qed.
 Theorem verified_register_applies : forall H D64 r order, verify_in H D64 r order = Ok ->
   client_build H r order = (Ok, mkcrdt (raddr (base r)) (mr_deliver H (map onode order))).
 Proof. exact verified_applies_lemma. Qed.
+
+(* ---------------------------------------------------------------- any number of replicas *)
+(* merging any collection of same-base replicas, in any order and with repetitions, gives the
+   union of their operations *)
+Theorem merge_all_order_independent : forall r0 l1 l2, wf r0 -> (forall r, In r l1 -> same_base r0 r) ->
+  (forall r, In r l1 <-> In r l2) -> ops (merge_all r0 l1) = ops (merge_all r0 l2).
+Proof. exact merge_all_order_lemma. Qed.
+
+Theorem merge_all_is_union : forall l r0, wf r0 -> (forall r, In r l -> same_base r0 r) ->
+  base (merge_all r0 l) = base r0 /\ wf (merge_all r0 l) /\
+  forall x, In x (ops (merge_all r0 l)) <-> In x (ops r0) \/ exists r, In r l /\ In x (ops r).
+Proof. exact merge_all_spec. Qed.
+
+(* identical (verified) operation sets present identical current values *)
+Theorem replicas_present_same_values : forall H D64 r1 r2 order1 order2,
+  verify_in H D64 r1 order1 = Ok -> verify_in H D64 r2 order2 = Ok -> base r1 = base r2 ->
+  (forall o, In o order1 <-> In o order2) -> inj_on H (map onode order1) ->
+  client_build H r1 order1 = client_build H r2 order2 /\ exists c, client_build H r1 order1 = (Ok, c).
+Proof. exact same_values_lemma. Qed.
+
+Theorem reachable_wf : forall H D64 r, reachable H D64 r -> wf r.
+Proof. exact reachable_wf_lemma. Qed.
